@@ -13,6 +13,7 @@ Not decided: completeness of reachability (a search).  Decided:
     image keyed without the chemistry would split orbits after a second star set is built).
 """
 import ast
+from ..model import ast_copy as _ast_copy
 
 from ..model import AnalysisError, dotted, unparse, walk_local
 from ..engines import memo, pattern, exchange
@@ -153,7 +154,7 @@ def _alpha(block):
     """copies of the statements with every name *bound inside the block* renamed v0, v1, ... in order of first binding
     (depth-first, source order): sibling copies are compared up to the names of their locals."""
     import copy
-    stmts = [copy.deepcopy(s) for s in block]
+    stmts = [_ast_copy(s) for s in block]
     order = {}
 
     class Bind(ast.NodeVisitor):
